@@ -1701,6 +1701,15 @@ def interpreted_core_parameters(repo):
         for method, ng in (("MNDO", 0), ("AM1", 4), ("PM3", 2), ("PM6", 4), ("PM6_SP", 4)):
             I = NpSym(repo)
             selfobj = Instance(m, cls, method=method)
+            # attributes the constructor initialises with a literal (flags, empty caches)
+            init_ = m.functions.get(f"{cls}.__init__")
+            for st_ in (ast.walk(init_) if init_ is not None else ()):
+                if isinstance(st_, ast.Assign) and len(st_.targets) == 1 and isinstance(st_.targets[0], ast.Attribute) and norm(st_.targets[0].value) == "self" \
+                        and isinstance(st_.value, (ast.Constant, ast.Dict, ast.List, ast.Tuple)) and st_.targets[0].attr != "method":
+                    try:
+                        setattr(selfobj, st_.targets[0].attr, ast.literal_eval(st_.value))
+                    except (ValueError, SyntaxError):
+                        pass
             mol = types.SimpleNamespace(parameters=dict(params), method=method)
             try:
                 val = slice_and_eval(I, m, f, arg, {f.args.args[0].arg: selfobj, f.args.args[1].arg: mol})
@@ -2170,3 +2179,87 @@ def interpreted_orbital_window(repo):
                 return False, (f"calc_cis_energy with the orbital window {win}: the orbital-energy differences are not those of the {n_below} highest occupied and {m_above} lowest "
                                f"virtual orbitals (the excitation energy handed to the gradient belongs to another window)"), n
     return True, "", n
+
+
+# ------------------------------------------------------------------------------------------------------------------------------------------------
+# C06-R10 / C19-R4: the PM6-family core-core term against the published form (Stewart 2007), decided by value on symbolic pairs
+# ------------------------------------------------------------------------------------------------------------------------------------------------
+def interpreted_pm6_core_core(repo):
+    """pair_nuclear_energy is interpreted (sa.npsym) for method PM6 / PM6_SP on one pair of each kind -- C-H, N-H, O-H, C-C, Si-O, O-O (generic), Si-H (generic) -- with
+    symbolic distance, core charges, rho_core, diatomic alpha / x parameters and Gaussian terms.  Published form, with g = ev / sqrt(r^2 + (rho_A + rho_B)^2) and R in Angstrom:
+        E = Z_A Z_B g [1 + 2 x_AB exp(-alpha_AB (R + 0.0003 R^6))]   (X-H with X in {C, N, O}: exponent -alpha_AB R^2)
+            + 1e-8 [(Zn_A^(1/3) + Zn_B^(1/3)) / R]^12  +  Z_A Z_B / R * (sum of the two atoms' Gaussians)
+            + Z_A Z_B g 9.28 exp(-5.98 R) for C-C,   - Z_A Z_B g 0.0007 exp(-(R - 2.9)^2) for Si-O
+    (the Si-O Gaussian is accepted with the distance in either unit: the repository evaluates it with the distance in bohr, an observation recorded in DESIGN.md).
+    Returns [(method, pair, ok, message)]."""
+    import numpy as np
+    import sympy as sp
+    from .loader import AnalysisError
+    from .npsym import NpSym, Raised
+    en = repo.mod("seqm/seqm_functions/energy.py")
+    f = en.func("pair_nuclear_energy")
+    I0 = NpSym(repo)
+    a0 = sp.nsimplify(I0.global_value(en, "a0"))
+    ev = sp.nsimplify(I0.global_value(en, "ev"))
+    pairs = [(6, 1, "C-H"), (7, 1, "N-H"), (8, 1, "O-H"), (6, 6, "C-C"), (14, 8, "Si-O"), (8, 8, "O-O"), (14, 1, "Si-H")]
+    npairs = len(pairs)
+    ni = np.array([p[0] for p in pairs], dtype=np.int64)
+    nj = np.array([p[1] for p in pairs], dtype=np.int64)
+    idxi = np.arange(npairs, dtype=np.int64)
+    idxj = np.arange(npairs, 2 * npairs, dtype=np.int64)
+    r = np.array([sp.Symbol(f"r{k}", positive=True) for k in range(npairs)], dtype=object)
+    rhoi = np.array([sp.Symbol(f"rhoA{k}", positive=True) for k in range(npairs)], dtype=object)
+    rhoj = np.array([sp.Symbol(f"rhoB{k}", positive=True) for k in range(npairs)], dtype=object)
+    gam = np.array([sp.Symbol(f"gam{k}") for k in range(npairs)], dtype=object)
+    tore = np.array([sp.Symbol(f"Z{z}", positive=True) for z in range(19)], dtype=object)
+    atomic_num = np.array([sp.Integer(z) for z in range(19)], dtype=object)
+    chi = np.array([[sp.Symbol(f"x_{a}_{b}") for b in range(19)] for a in range(19)], dtype=object)
+    alp = np.array([[sp.Symbol(f"al_{a}_{b}", positive=True) for b in range(19)] for a in range(19)], dtype=object)
+    nat = 2 * npairs
+    alpha = np.array([sp.Symbol(f"alpha{a}") for a in range(nat)], dtype=object)
+    K, L, M = (np.array([[sp.Symbol(f"{t}{a}_{g}") for g in range(4)] for a in range(nat)], dtype=object) for t in "KLM")
+    out = []
+    for method in ("PM6", "PM6_SP"):
+        const = types.SimpleNamespace(atomic_num=atomic_num, tore=tore)
+        try:
+            E = NpSym(repo).call_function(en, f, [None, const, 1, ni, nj, idxi, idxj, r.copy(), rhoi.copy(), rhoj.copy(), alp, chi], {"gam": gam.copy(), "method": method, "parameters": (alpha, K, L, M)})
+        except Raised as e:
+            out.append((method, "all", False, f"pair_nuclear_energy raises for {method}: {str(e)[:80]}"))
+            continue
+        E = np.asarray(E)
+        for k, (za, zb, name) in enumerate(pairs):
+            R = r[k] * a0
+            g = ev / sp.sqrt(r[k] ** 2 + (rhoi[k] + rhoj[k]) ** 2)
+            ZZ = tore[za] * tore[zb]
+            xh = za in (6, 7, 8) and zb == 1
+            expo = -alp[za, zb] * (R ** 2 if xh else (R + sp.Rational(3, 10000) * R ** 6))
+            want = ZZ * g * (1 + 2 * chi[za, zb] * sp.exp(expo)) + sp.Rational(1, 10 ** 8) * ((sp.Integer(za) ** sp.Rational(1, 3) + sp.Integer(zb) ** sp.Rational(1, 3)) / R) ** 12
+            want += ZZ / R * (sum(K[idxi[k], g_] * sp.exp(-L[idxi[k], g_] * (R - M[idxi[k], g_]) ** 2) for g_ in range(4))
+                              + sum(K[idxj[k], g_] * sp.exp(-L[idxj[k], g_] * (R - M[idxj[k], g_]) ** 2) for g_ in range(4)))
+            alts = [want]
+            if name == "C-C":
+                alts = [want + ZZ * g * sp.Rational(928, 100) * sp.exp(-R * sp.Rational(598, 100))]
+            if name == "Si-O":
+                alts = [want - ZZ * g * sp.Rational(7, 10000) * sp.exp(-(R - sp.Rational(29, 10)) ** 2), want - ZZ * g * sp.Rational(7, 10000) * sp.exp(-(r[k] - sp.Rational(29, 10)) ** 2)]
+            got = sp.sympify(E[k])
+            rng = np.random.RandomState(7 + k)
+            syms = sorted(set().union(*[a_.free_symbols for a_ in alts]) | got.free_symbols, key=str)
+            ok = False
+            for alt in alts:
+                good = True
+                for _ in range(3):
+                    vals = {s_: sp.Rational(int(rng.randint(3, 40)), 17) for s_ in syms}
+                    d = sp.N((got - alt).subs(vals), 40)
+                    scale = abs(sp.N(alt.subs(vals), 40)) + 1
+                    if abs(d) > scale * sp.Float("1e-11"):
+                        good = False
+                        break
+                ok = ok or good
+            msg = ""
+            if not ok:
+                msg = (f"{method}: the core-core energy of a {name} pair is not the published PM6 form "
+                       f"(Z_A Z_B g [1 + 2 x exp(-alpha {'R^2' if xh else '(R + 0.0003 R^6)'})] + unpolarisable-core term + Gaussians"
+                       f"{' + 9.28 exp(-5.98 R) term' if name == 'C-C' else ' - 0.0007 exp(-(R - 2.9)^2) term' if name == 'Si-O' else ''}): fragments containing such a pair get a wrong "
+                       f"interaction energy at every distance")
+            out.append((method, name, ok, msg))
+    return out
